@@ -37,11 +37,13 @@ def _apply(root: str, file: str, old: str, new: str, count: int) -> bool:
     p = os.path.join(root, file)
     if not os.path.exists(p):
         return False
-    with open(p, encoding="utf-8") as fh:
+    with open(p, encoding="utf-8", newline="") as fh:
         s = fh.read()
+    if "\r\n" in s:
+        old, new = old.replace("\n", "\r\n"), new.replace("\n", "\r\n")
     if s.count(old) != count:
         return False
-    with open(p, "w", encoding="utf-8") as fh:
+    with open(p, "w", encoding="utf-8", newline="") as fh:
         fh.write(s.replace(old, new))
     return True
 
@@ -88,6 +90,7 @@ def run_matrix(pid: str, repo: str, rep, jobs: Optional[int] = None) -> dict:
     vs = variants_for(pid)
     if not vs:
         return {"variants": 0, "note": "no seeded variants registered for this property"}
+    rep.match_known()
     base_viol = {o.key() for o in rep.obs if o.status == "VIOLATION"}
     base_code = 1 if any(o.status == "VIOLATION" and o.known is None for o in rep.obs) else (2 if rep.errors or any(
         o.status == "UNDECIDED" for o in rep.obs) else 0)
